@@ -82,19 +82,19 @@ Ops == <<
    def |-> <<120, 44, 44, 85, 67, 72, 44, 44, 49, 45, 53, 48>>,
    t |-> <<55>>, b |-> <<>>, fmt |-> 0],
   \* 14: enc x,,UCH,10 '6.0'
-  [id |-> 14, act |-> "enc", cls |-> "encode-derived-divisor", tpl |-> <<>>,
+  [id |-> 14, act |-> "enc", cls |-> "derived-divisor", tpl |-> <<>>,
    def |-> <<120, 44, 44, 85, 67, 72, 44, 49, 48>>,
    t |-> <<54, 46, 48>>, b |-> <<>>, fmt |-> 0],
   \* 15: enc x,,tr,10 [templates: tr,UCH,,0-50] '6.0'
-  [id |-> 15, act |-> "enc", cls |-> "encode-derived-from-ranged-template", tpl |-> <<<<110, 97, 109, 101, 44, 42, 116, 121, 112, 101, 44, 100, 105, 118, 105, 115, 111, 114, 47, 118, 97, 108, 117, 101, 115, 44, 114, 97, 110, 103, 101, 44, 117, 110, 105, 116, 44, 99, 111, 109, 109, 101, 110, 116>>, <<116, 114, 44, 85, 67, 72, 44, 44, 48, 45, 53, 48>>>>,
+  [id |-> 15, act |-> "enc", cls |-> "ranged-template-divisor", tpl |-> <<<<110, 97, 109, 101, 44, 42, 116, 121, 112, 101, 44, 100, 105, 118, 105, 115, 111, 114, 47, 118, 97, 108, 117, 101, 115, 44, 114, 97, 110, 103, 101, 44, 117, 110, 105, 116, 44, 99, 111, 109, 109, 101, 110, 116>>, <<116, 114, 44, 85, 67, 72, 44, 44, 48, 45, 53, 48>>>>,
    def |-> <<120, 44, 44, 116, 114, 44, 49, 48>>,
    t |-> <<54, 46, 48>>, b |-> <<>>, fmt |-> 0],
   \* 16: enc x,,ts,10 [templates: ts,SIN,,-100-100] '20.0'
-  [id |-> 16, act |-> "enc", cls |-> "encode-derived-from-ranged-template", tpl |-> <<<<110, 97, 109, 101, 44, 42, 116, 121, 112, 101, 44, 100, 105, 118, 105, 115, 111, 114, 47, 118, 97, 108, 117, 101, 115, 44, 114, 97, 110, 103, 101, 44, 117, 110, 105, 116, 44, 99, 111, 109, 109, 101, 110, 116>>, <<116, 115, 44, 83, 73, 78, 44, 44, 45, 49, 48, 48, 45, 49, 48, 48>>>>,
+  [id |-> 16, act |-> "enc", cls |-> "ranged-template-divisor", tpl |-> <<<<110, 97, 109, 101, 44, 42, 116, 121, 112, 101, 44, 100, 105, 118, 105, 115, 111, 114, 47, 118, 97, 108, 117, 101, 115, 44, 114, 97, 110, 103, 101, 44, 117, 110, 105, 116, 44, 99, 111, 109, 109, 101, 110, 116>>, <<116, 115, 44, 83, 73, 78, 44, 44, 45, 49, 48, 48, 45, 49, 48, 48>>>>,
    def |-> <<120, 44, 44, 116, 115, 44, 49, 48>>,
    t |-> <<50, 48, 46, 48>>, b |-> <<>>, fmt |-> 0],
   \* 17: enc x,,SIN,10 '20.0'
-  [id |-> 17, act |-> "enc", cls |-> "encode-derived-divisor", tpl |-> <<>>,
+  [id |-> 17, act |-> "enc", cls |-> "derived-divisor", tpl |-> <<>>,
    def |-> <<120, 44, 44, 83, 73, 78, 44, 49, 48>>,
    t |-> <<50, 48, 46, 48>>, b |-> <<>>, fmt |-> 0],
   \* 18: dec x,,UCH 64
@@ -125,42 +125,46 @@ Ops == <<
   [id |-> 24, act |-> "dec", cls |-> "decode-padded", tpl |-> <<>>,
    def |-> <<120, 44, 44, 66, 68, 65, 58, 51>>,
    t |-> <<>>, b |-> <<1, 2, 32>>, fmt |-> 0],
-  \* 25: dec x,,UCH,0=off;1=on 01
-  [id |-> 25, act |-> "dec", cls |-> "decode-list", tpl |-> <<>>,
-   def |-> <<120, 44, 44, 85, 67, 72, 44, 48, 61, 111, 102, 102, 59, 49, 61, 111, 110>>,
-   t |-> <<>>, b |-> <<1>>, fmt |-> 0],
-  \* 26: dec x,,UCH,0=off;1=on 07
+  \* 25: dec x,,BDA:3 ffff01
+  [id |-> 25, act |-> "dec", cls |-> "decode-padded", tpl |-> <<>>,
+   def |-> <<120, 44, 44, 66, 68, 65, 58, 51>>,
+   t |-> <<>>, b |-> <<255, 255, 1>>, fmt |-> 0],
+  \* 26: dec x,,UCH,0=off;1=on 01
   [id |-> 26, act |-> "dec", cls |-> "decode-list", tpl |-> <<>>,
    def |-> <<120, 44, 44, 85, 67, 72, 44, 48, 61, 111, 102, 102, 59, 49, 61, 111, 110>>,
+   t |-> <<>>, b |-> <<1>>, fmt |-> 0],
+  \* 27: dec x,,UCH,0=off;1=on 07
+  [id |-> 27, act |-> "dec", cls |-> "decode-list", tpl |-> <<>>,
+   def |-> <<120, 44, 44, 85, 67, 72, 44, 48, 61, 111, 102, 102, 59, 49, 61, 111, 110>>,
    t |-> <<>>, b |-> <<7>>, fmt |-> 0],
-  \* 27: dec x,,SCH ff
-  [id |-> 27, act |-> "dec", cls |-> "decode-number", tpl |-> <<>>,
+  \* 28: dec x,,SCH ff
+  [id |-> 28, act |-> "dec", cls |-> "decode-number", tpl |-> <<>>,
    def |-> <<120, 44, 44, 83, 67, 72>>,
    t |-> <<>>, b |-> <<255>>, fmt |-> 0],
-  \* 28: dec x,,ULG,10 41000000
-  [id |-> 28, act |-> "dec", cls |-> "decode-fixed", tpl |-> <<>>,
+  \* 29: dec x,,ULG,10 41000000
+  [id |-> 29, act |-> "dec", cls |-> "decode-fixed", tpl |-> <<>>,
    def |-> <<120, 44, 44, 85, 76, 71, 44, 49, 48>>,
    t |-> <<>>, b |-> <<65, 0, 0, 0>>, fmt |-> 0],
-  \* 29: dec x,,UCH,10 3c
-  [id |-> 29, act |-> "dec", cls |-> "decode-derived-divisor", tpl |-> <<>>,
+  \* 30: dec x,,UCH,10 3c
+  [id |-> 30, act |-> "dec", cls |-> "derived-divisor", tpl |-> <<>>,
    def |-> <<120, 44, 44, 85, 67, 72, 44, 49, 48>>,
    t |-> <<>>, b |-> <<60>>, fmt |-> 0],
-  \* 30: dec x,,tr,10 [templates: tr,UCH,,0-50] 3c
-  [id |-> 30, act |-> "dec", cls |-> "decode-derived-from-ranged-template", tpl |-> <<<<110, 97, 109, 101, 44, 42, 116, 121, 112, 101, 44, 100, 105, 118, 105, 115, 111, 114, 47, 118, 97, 108, 117, 101, 115, 44, 114, 97, 110, 103, 101, 44, 117, 110, 105, 116, 44, 99, 111, 109, 109, 101, 110, 116>>, <<116, 114, 44, 85, 67, 72, 44, 44, 48, 45, 53, 48>>>>,
+  \* 31: dec x,,tr,10 [templates: tr,UCH,,0-50] 3c
+  [id |-> 31, act |-> "dec", cls |-> "ranged-template-divisor", tpl |-> <<<<110, 97, 109, 101, 44, 42, 116, 121, 112, 101, 44, 100, 105, 118, 105, 115, 111, 114, 47, 118, 97, 108, 117, 101, 115, 44, 114, 97, 110, 103, 101, 44, 117, 110, 105, 116, 44, 99, 111, 109, 109, 101, 110, 116>>, <<116, 114, 44, 85, 67, 72, 44, 44, 48, 45, 53, 48>>>>,
    def |-> <<120, 44, 44, 116, 114, 44, 49, 48>>,
    t |-> <<>>, b |-> <<60>>, fmt |-> 0],
-  \* 31: mk x,,UCH,10 
-  [id |-> 31, act |-> "mk", cls |-> "dump-definition", tpl |-> <<>>,
+  \* 32: mk x,,UCH,10 
+  [id |-> 32, act |-> "mk", cls |-> "derived-divisor", tpl |-> <<>>,
    def |-> <<120, 44, 44, 85, 67, 72, 44, 49, 48>>,
    t |-> <<>>, b |-> <<>>, fmt |-> 0],
-  \* 32: mk x,,tr,10 [templates: tr,UCH,,0-50] 
-  [id |-> 32, act |-> "mk", cls |-> "dump-definition", tpl |-> <<<<110, 97, 109, 101, 44, 42, 116, 121, 112, 101, 44, 100, 105, 118, 105, 115, 111, 114, 47, 118, 97, 108, 117, 101, 115, 44, 114, 97, 110, 103, 101, 44, 117, 110, 105, 116, 44, 99, 111, 109, 109, 101, 110, 116>>, <<116, 114, 44, 85, 67, 72, 44, 44, 48, 45, 53, 48>>>>,
+  \* 33: mk x,,tr,10 [templates: tr,UCH,,0-50] 
+  [id |-> 33, act |-> "mk", cls |-> "ranged-template-divisor", tpl |-> <<<<110, 97, 109, 101, 44, 42, 116, 121, 112, 101, 44, 100, 105, 118, 105, 115, 111, 114, 47, 118, 97, 108, 117, 101, 115, 44, 114, 97, 110, 103, 101, 44, 117, 110, 105, 116, 44, 99, 111, 109, 109, 101, 110, 116>>, <<116, 114, 44, 85, 67, 72, 44, 44, 48, 45, 53, 48>>>>,
    def |-> <<120, 44, 44, 116, 114, 44, 49, 48>>,
    t |-> <<>>, b |-> <<>>, fmt |-> 0]
 >>
 
 OpIds == 1..Len(Ops)
-CoreOps == {1, 2, 4, 5, 6, 8, 11, 13, 14, 15, 19, 20, 21, 23, 26, 30}      \* representatives used for the longest histories
+CoreOps == {1, 2, 4, 5, 6, 8, 11, 13, 14, 15, 19, 20, 21, 23, 25, 31}      \* representatives used for the longest histories
 
 (* all op sequences of length <= L, plus (thorough) length L+1 over the core operations *)
 RECURSIVE SeqsUpTo(_, _)
@@ -187,7 +191,7 @@ IsHistory(h, L, deep) ==
 (* op = the set, result = (dump, probe results).                                                *)
 LoadTemplates == <<<<110, 97, 109, 101, 44, 42, 116, 121, 112, 101, 44, 100, 105, 118, 105, 115, 111, 114, 47, 118, 97, 108, 117, 101, 115, 44, 114, 97, 110, 103, 101, 44, 117, 110, 105, 116, 44, 99, 111, 109, 109, 101, 110, 116>>, <<116, 114, 44, 85, 67, 72, 44, 44, 48, 45, 53, 48>>, <<116, 115, 44, 83, 73, 78, 44, 44, 45, 49, 48, 48, 45, 49, 48, 48>>>>
 LoadSets == <<
-  <<
+  [tag |-> "unsigned-divisor-plain-vs-ranged-template", lines |-> <<
     \* w,c,plain,,,08,b509,0d0100,x,,UCH,10   probe: write '6.0'
     [line |-> <<119, 44, 99, 44, 112, 108, 97, 105, 110, 44, 44, 44, 48, 56, 44, 98, 53, 48, 57, 44, 48, 100, 48, 49, 48, 48, 44, 120, 44, 44, 85, 67, 72, 44, 49, 48>>,
      name |-> <<112, 108, 97, 105, 110>>, probe |-> <<54, 46, 48>>],
@@ -200,8 +204,8 @@ LoadSets == <<
     \* w,c,mode,,,08,b509,0d0400,x,,UCH,0=off;1=on   probe: write 'on'
     [line |-> <<119, 44, 99, 44, 109, 111, 100, 101, 44, 44, 44, 48, 56, 44, 98, 53, 48, 57, 44, 48, 100, 48, 52, 48, 48, 44, 120, 44, 44, 85, 67, 72, 44, 48, 61, 111, 102, 102, 59, 49, 61, 111, 110>>,
      name |-> <<109, 111, 100, 101>>, probe |-> <<111, 110>>]
-  >>,
-  <<
+  >>],
+  [tag |-> "signed-divisor-plain-vs-ranged-template", lines |-> <<
     \* w,c,splain,,,08,b509,0e0100,x,,SIN,10   probe: write '20.0'
     [line |-> <<119, 44, 99, 44, 115, 112, 108, 97, 105, 110, 44, 44, 44, 48, 56, 44, 98, 53, 48, 57, 44, 48, 101, 48, 49, 48, 48, 44, 120, 44, 44, 83, 73, 78, 44, 49, 48>>,
      name |-> <<115, 112, 108, 97, 105, 110>>, probe |-> <<50, 48, 46, 48>>],
@@ -211,13 +215,13 @@ LoadSets == <<
     \* w,c,big,,,08,b509,0e0300,x,,ULG   probe: write '4000000000'
     [line |-> <<119, 44, 99, 44, 98, 105, 103, 44, 44, 44, 48, 56, 44, 98, 53, 48, 57, 44, 48, 101, 48, 51, 48, 48, 44, 120, 44, 44, 85, 76, 71>>,
      name |-> <<98, 105, 103>>, probe |-> <<52, 48, 48, 48, 48, 48, 48, 48, 48, 48>>]
-  >>,
-  <<
-    \* w,c,a,,,08,b509,0f0100,x,,UCH,10;y,,UIN   probe: write '1.5;7'
-    [line |-> <<119, 44, 99, 44, 97, 44, 44, 44, 48, 56, 44, 98, 53, 48, 57, 44, 48, 102, 48, 49, 48, 48, 44, 120, 44, 44, 85, 67, 72, 44, 49, 48, 59, 121, 44, 44, 85, 73, 78>>,
+  >>],
+  [tag |-> "multi-field-plain-vs-ranged-template", lines |-> <<
+    \* w,c,a,,,08,b509,0f0100,x,,UCH,10,,,y,,UIN   probe: write '1.5;7'
+    [line |-> <<119, 44, 99, 44, 97, 44, 44, 44, 48, 56, 44, 98, 53, 48, 57, 44, 48, 102, 48, 49, 48, 48, 44, 120, 44, 44, 85, 67, 72, 44, 49, 48, 44, 44, 44, 121, 44, 44, 85, 73, 78>>,
      name |-> <<97>>, probe |-> <<49, 46, 53, 59, 55>>],
-    \* w,c,b,,,08,b509,0f0200,x,,tr,10;y,,HEX:2   probe: write '1.5;0a 0b'
-    [line |-> <<119, 44, 99, 44, 98, 44, 44, 44, 48, 56, 44, 98, 53, 48, 57, 44, 48, 102, 48, 50, 48, 48, 44, 120, 44, 44, 116, 114, 44, 49, 48, 59, 121, 44, 44, 72, 69, 88, 58, 50>>,
+    \* w,c,b,,,08,b509,0f0200,x,,tr,10,,,y,,HEX:2   probe: write '1.5;0a 0b'
+    [line |-> <<119, 44, 99, 44, 98, 44, 44, 44, 48, 56, 44, 98, 53, 48, 57, 44, 48, 102, 48, 50, 48, 48, 44, 120, 44, 44, 116, 114, 44, 49, 48, 44, 44, 44, 121, 44, 44, 72, 69, 88, 58, 50>>,
      name |-> <<98>>, probe |-> <<49, 46, 53, 59, 48, 97, 32, 48, 98>>],
     \* w,c,d,,,08,b509,0f0300,x,,tr,10   probe: write '7.0'
     [line |-> <<119, 44, 99, 44, 100, 44, 44, 44, 48, 56, 44, 98, 53, 48, 57, 44, 48, 102, 48, 51, 48, 48, 44, 120, 44, 44, 116, 114, 44, 49, 48>>,
@@ -225,7 +229,7 @@ LoadSets == <<
     \* w,c,e,,,08,b509,0f0400,x,,UCH,10,,,y,,tr,10   probe: write '7.0;7.0'
     [line |-> <<119, 44, 99, 44, 101, 44, 44, 44, 48, 56, 44, 98, 53, 48, 57, 44, 48, 102, 48, 52, 48, 48, 44, 120, 44, 44, 85, 67, 72, 44, 49, 48, 44, 44, 44, 121, 44, 44, 116, 114, 44, 49, 48>>,
      name |-> <<101>>, probe |-> <<55, 46, 48, 59, 55, 46, 48>>]
-  >>
+  >>]
 >>
 
 Perms(n) == {p \in [1..n -> 1..n] : \A a, b \in 1..n : a # b => p[a] # p[b]}
